@@ -142,11 +142,38 @@ CLAIMED["C02"] = dict(
           "are outside the claim; composition of the contracts over whole programs is argued."),
 )
 
+CLAIMED["C01"] = dict(
+    text=("Bounded model checking of single evaluation steps of the real evaluator against an oracle written from the language documentation, "
+          "for ALL operand values within the step's shape: number op number is the IEEE double operation for all pairs of doubles (add, minus, times "
+          "bit for bit; divide exactly on whole numbers -128..127 and number-vs-`Division by zero` on all doubles; pass/small pass; `na` for equal and "
+          "for clearly different numbers), and/or with left-to-right order, short circuit and null as falsy, the comparison tables of booleans and "
+          "null, string concatenation and byte-order comparison, not / unary minus, the error kinds of indexing, if/else branch selection, and the "
+          "jasi protocol (test before every pass; comot, next, return). NOT the whole-program statement of the property: one step per construct; "
+          "parser, calls, variables, interpolation, built-ins and the composition over programs are outside."),
+    ref="DESIGN.md A.1 (C01)",
+    note=("Trusted: Kani/CBMC/SAT and CBMC's IEEE-754 model; the recursive eval_expr calls and nested blocks are replaced by stubs that hand out prepared "
+          "values / ways of ending and record the order of evaluation; the operator steps enter a copy of eval_expr regenerated from the current source on "
+          "every run; mod is only required to yield a number (no exact fmod model); strings are 2 ASCII bytes; the undocumented tolerance of `na` on numbers "
+          "is not pinned."),
+)
+
+CLAIMED["C06"] = dict(
+    text=("Bounded model checking of single evaluation steps of the real evaluator with the VALUES of the sub-expressions symbolic in kind and "
+          "content (the static checker types parameters, array elements and several built-in results as dynamic, so every kind reaches every "
+          "position at run time): a binary operator (5 classes x 5 x 5 operand kinds), a unary operator, an index expression, an `if to say`/`jasi` "
+          "condition, and a method call (11 names x 0..2 arguments x 5 receiver kinds x argument kinds) end with a value or a REPORTED runtime "
+          "error - no panic, unreachable!, unimplemented!, failed assert or out-of-bounds access. NOT the whole-program statement of the property: "
+          "one step per node kind, composition argued."),
+    ref="DESIGN.md A.1 (C06)",
+    note=("Trusted: Kani/CBMC/SAT; the recursive eval_expr calls are replaced by a stub that returns a prepared value (any double, 2 symbolic ASCII "
+          "bytes, any bool, null, the empty array) and records the call order; the operator steps enter a copy of eval_expr regenerated from the "
+          "current source on every run; check_stack (C08), number formatting, the text kernels behind string/array methods (C13) and process "
+          "methods are cut; host values, non-empty arrays as operands, function calls, index assignment and interpolation are outside the claim."),
+)
+
 NOT_APPLICABLE = {
-    "C01": "tree-walk evaluator (Runtime::eval_expr/exec_stmt) cannot be symbolically executed by Kani/CBMC within this machine's memory (7 probe variants, DESIGN.md 4); every clause of the property is evaluator behaviour",
     "C03": "differential between two evaluator runs fed by the whole analysis pipeline on symbolic programs; neither half can be encoded (DESIGN.md 4)",
     "C05": "copy primitives (Value::clone_into / promote) re-read element tags from arena memory, so CBMC explores every variant at every level; flat two-element arrays did not finish; mutation paths need the evaluator (DESIGN.md 4)",
-    "C06": "the panic/unreachable sites are arms of eval_expr / eval_member_call, which cannot be encoded (DESIGN.md 4)",
     "C08": "native stack depth is not part of CBMC's machine model (no stack pointer, frame sizes or guard page); check_stack compares addresses of unrelated model objects",
     "C14": "process-level observation (stdout/exit status) of a binary and sequences of whole-program runs through clap, file I/O and the evaluator; the encodable ingredient (scratch arena flip/flop and re-initialisation) is decided under C11",
 }
